@@ -12,9 +12,16 @@ import time
 VERIF = os.path.dirname(os.path.dirname(os.path.abspath(__file__)))
 REPO = os.environ.get('VERIF_REPO', '/repo')
 COQ = os.path.join(VERIF, 'coq')
-BUILD = os.path.join(VERIF, 'build')
-EVID = os.path.join(VERIF, 'evidence')
-REPLAYS = os.path.join(VERIF, 'replays')
+if os.path.realpath(REPO) == '/repo':
+    BUILD = os.path.join(VERIF, 'build')
+    EVID = os.path.join(VERIF, 'evidence')
+    REPLAYS = os.path.join(VERIF, 'replays')
+else:
+    # a scratch tree is being checked (self-test of the machinery): keep its case files,
+    # evidence and replays apart from those of /repo so runs can proceed in parallel
+    BUILD = os.path.join(VERIF, 'build', 'scratch_' + hashlib.sha1(REPO.encode()).hexdigest()[:8])
+    EVID = os.path.join(BUILD, 'evidence')
+    REPLAYS = os.path.join(BUILD, 'replays')
 CORPUS = os.path.join(VERIF, 'corpus')
 
 # make the implementation importable from the working tree under test
@@ -47,8 +54,8 @@ def sh(cmd, cwd=None, timeout=None, env=None):
 
 class Lock:
     def __init__(self, name):
-        os.makedirs(BUILD, exist_ok=True)
-        self.path = os.path.join(BUILD, name + '.lock')
+        os.makedirs(os.path.join(VERIF, 'build'), exist_ok=True)
+        self.path = os.path.join(VERIF, 'build', name + '.lock')
 
     def __enter__(self):
         self.f = open(self.path, 'w')
